@@ -168,3 +168,105 @@ Proof.
   rewrite !qty_on_days_journal. unfold mv_cell, ValuationSpec.price_on. rewrite str_eqb_refl. cbn [price_q].
   assert (E1 : dvalue one == 1) by reflexivity. rewrite E1. ring.
 Qed.
+
+(* ------------------------------------------------------------ Part B: the sum over commodities *)
+
+Theorem windowed_row cfg ds r part V :
+  bc_valuation cfg = Some V ->
+  balance_report cfg ds = COk (r, part) ->
+  exists dl,
+    parse_directives ds = MOk dl /\
+    new_partition (clip (mkPeriod (bc_from cfg) (bc_to cfg)) (journal_period dl)) (bc_interval cfg) (bc_last cfg) = POk part /\
+    (postings_syntactic dl ->
+     forall a col coms, account_ok a = true -> is_AL a = true -> shows_account cfg a ->
+       (forall c, In c coms -> cfg_where cfg a c = true) ->
+       (p_start (span part) <= p_end (span part))%Z -> In col (end_dates part) ->
+       Qabs (row_value a part col r coms
+             - (mv_row dl V a col coms - mv_row dl V a (p_start (span part) - 1) coms))
+         <= inject_Z (row_steps cfg dl part V a col coms) * (1 # 100000000)).
+Proof.
+  intros Hv H. destruct (windowed_report cfg ds r part V Hv H) as (dl & Ep & Epart & Hw).
+  destruct (windowed_report_V cfg ds r part V Hv H) as (dl' & Ep' & _ & HwV).
+  assert (dl' = dl) by congruence. subst dl'.
+  exists dl. split; [exact Ep|]. split; [exact Epart|].
+  intros Hsyn a col coms Ha HAL Hsh Hwh Hspan Hcol.
+  unfold row_value, mv_row. induction coms as [|c coms IH].
+  - apply bound_zero. unfold LedgerProofs.qsum. cbn [fold_right]. ring.
+  - specialize (IH (fun c' Hc' => Hwh c' (or_intror Hc'))). cbn [row_steps].
+    pose proof (Hwh c (or_introl eq_refl)) as Hwc.
+    eapply (bound_add (1 # 100000000)
+              (cum_cell a c part col r - (mv_cell dl V a c col - mv_cell dl V a c (p_start (span part) - 1)))).
+    + destruct (str_eqb c V) eqn:Ec.
+      * apply str_eqb_eq in Ec. subst c. apply bound_zero. rewrite (HwV Hsyn a col Ha HAL Hsh Hwc Hspan Hcol). ring.
+      * assert (Hcv : c <> V) by (intros ->; rewrite str_eqb_refl in Ec; discriminate).
+        exact (Hw Hsyn a c col Ha HAL Hsh Hwc Hcv Hspan Hcol).
+    + exact IH.
+    + unfold LedgerProofs.qsum. cbn [fold_right]. ring.
+Qed.
+
+(* ------------------------------------------------------------ Part C: ValuationSpec.market_value *)
+
+Definition mv_step (dl : list directive) (V : commodity) (a : account) (T : Z) (acc : option dec) (c : commodity) : option dec :=
+  match acc with
+  | None => None
+  | Some s =>
+    let q := qty_upto (flat_postings dl) a c T in
+    if is_zero q then Some s
+    else match ValuationSpec.price_on dl V c T with
+         | Some p => Some (add s (mul q p))
+         | None => None
+         end
+  end.
+
+Lemma mv_fold dl V a T : forall coms s x,
+  fold_left (mv_step dl V a T) coms (Some s) = Some x -> dvalue x == dvalue s + mv_row dl V a T coms.
+Proof.
+  unfold mv_row. induction coms as [|c coms IH]; intros s x H; cbn [fold_left] in H.
+  - injection H as <-. unfold LedgerProofs.qsum. cbn [fold_right]. ring.
+  - unfold LedgerProofs.qsum. cbn [fold_right]. fold (lsum (fun c0 => mv_cell dl V a c0 T) coms).
+    unfold mv_step at 2 in H. destruct (is_zero (qty_upto (flat_postings dl) a c T)) eqn:Ez.
+    + rewrite (IH _ _ H). unfold mv_cell. apply is_zero_value in Ez. rewrite Ez. ring.
+    + destruct (ValuationSpec.price_on dl V c T) as [p|] eqn:Epr.
+      * rewrite (IH _ _ H), dvalue_add, dvalue_mul. unfold mv_cell. rewrite Epr. cbn [price_q]. ring.
+      * exfalso. clear -H. induction coms as [|c' coms IHc]; cbn [fold_left] in H; [discriminate|]. apply IHc. exact H.
+Qed.
+
+Theorem market_value_sum dl V a T x :
+  market_value dl V a T = Some x -> dvalue x == mv_row dl V a T (held_commodities (flat_postings dl) a).
+Proof.
+  intros H. unfold market_value in H. change (fold_left (mv_step dl V a T) (held_commodities (flat_postings dl) a) (Some dec_nil) = Some x) in H.
+  rewrite (mv_fold dl V a T _ _ _ H), dvalue_nil. ring.
+Qed.
+
+Theorem mtm_expected_sum dl V a W E e :
+  mtm_expected dl V a W E = Some e ->
+  dvalue e == mv_row dl V a E (held_commodities (flat_postings dl) a) - mv_row dl V a (W - 1) (held_commodities (flat_postings dl) a).
+Proof.
+  unfold mtm_expected. destruct (market_value dl V a E) as [x|] eqn:E1; [|discriminate].
+  destruct (market_value dl V a (W - 1)) as [y|] eqn:E2; [|discriminate].
+  intros H. injection H as <-. rewrite dvalue_sub, (market_value_sum _ _ _ _ _ E1), (market_value_sum _ _ _ _ _ E2). reflexivity.
+Qed.
+
+(* ------------------------------------------------------------ Part D: the row against mtm_expected *)
+
+Theorem windowed_row_expected cfg ds r part V :
+  bc_valuation cfg = Some V ->
+  balance_report cfg ds = COk (r, part) ->
+  exists dl,
+    parse_directives ds = MOk dl /\
+    new_partition (clip (mkPeriod (bc_from cfg) (bc_to cfg)) (journal_period dl)) (bc_interval cfg) (bc_last cfg) = POk part /\
+    (postings_syntactic dl ->
+     forall a col e, account_ok a = true -> is_AL a = true -> shows_account cfg a ->
+       (forall c, cfg_where cfg a c = true) ->
+       (p_start (span part) <= p_end (span part))%Z -> In col (end_dates part) ->
+       mtm_expected dl V a (p_start (span part)) col = Some e ->
+       let coms := held_commodities (flat_postings dl) a in
+       Qabs (row_value a part col r coms - dvalue e)
+         <= inject_Z (row_steps cfg dl part V a col coms) * (1 # 100000000)).
+Proof.
+  intros Hv H. destruct (windowed_row cfg ds r part V Hv H) as (dl & Ep & Epart & Hw).
+  exists dl. split; [exact Ep|]. split; [exact Epart|].
+  intros Hsyn a col e Ha HAL Hsh Hwh Hspan Hcol He coms.
+  rewrite (mtm_expected_sum _ _ _ _ _ _ He).
+  exact (Hw Hsyn a col coms Ha HAL Hsh (fun c _ => Hwh c) Hspan Hcol).
+Qed.
